@@ -235,4 +235,11 @@ def obligations(tier, seed):
     obs.append(Ob(id='C15.minmax.i32_ft_in', prop='C15', group='C15.minmax', prelude=PRE, wrappers=[wmax, wmin, wabs, wcl], inputs=[(ct, 'a'), (ct, 'b'), (ct, 'c')], body=body,
                   contract='forall a (feet), b, c (inches) with a*12 in range: max/min/clamp equal the operation on the exactly scaled values in the common unit (inches); abs is raw abs',
                   functions_under_contract=('au::max', 'au::min', 'au::clamp', 'au::abs')))
+    # ---- negative compile probes: programs the property says are REJECTED must be rejected by the library's own guard (supporting static facts, decided by the compilers)
+    NHDR = '#include "au/au.hh"\n#include "au/units/feet.hh"\n#include "au/units/inches.hh"\n#include "au/units/meters.hh"\n#include "au/units/seconds.hh"\n#include "au/units/hertz.hh"\n#include "au/units/percent.hh"\n#include "au/units/celsius.hh"\n#include "au/units/kelvins.hh"\nusing namespace au;\n'
+    for (nm_, expr_, rx_) in [('inverse-as-small-K', 'inverse_as(seconds, hertz(5))', 'Dangerous inversion'), ('inverse-in-small-K', 'inverse_in(milli(seconds), hertz(5))', 'Dangerous inversion')]:
+        obs.append(Ob(id='C15.static.rejects.' + nm_, prop='C15', group='C15.static', prelude='', wrappers=[], inputs=[], kind='S',
+                      body=NHDR + 'int main() { auto vf_x = ' + expr_ + '; (void)vf_x; }\n', dfcc=dict(expect='reject', match=rx_),
+                      contract='must not compile: `' + expr_ + '` (integral inversions with K < 10^6 are refused at compile time; diagnostic /' + rx_ + '/)',
+                      functions_under_contract=('compile-time guard',)))
     return obs
